@@ -35,7 +35,7 @@ def run(ctx):
     F = ctx.F['cli']
     ctx.rule('C08.R1', 'copy_atomic: content created only at dst+".copia-tmp"; copy Ok -> sync of the staged file Ok -> rename(tmp, dst); every success passes the rename', floor=5)
     ctx.rule('C08.R2', 'in the bisync call graph only copy_atomic and Archive::save create file content or rename', floor=4)
-    ctx.rule('C08.R3', 'Archive::save: one call site, after the apply loop is exhausted, never after an apply error, not under dry_run', floor=3)
+    ctx.rule('C08.R3', 'Archive::save: one call site, after the apply loop is exhausted, never after an apply error, not under dry_run, and nothing mutates a tree after it', floor=4)
     ctx.rule('C08.R4', 'Archive::save: create(tmp) -> write_all Ok -> sync_all Ok -> rename(tmp, path); .bak first; parent sync after', floor=4)
     ctx.rule('C08.R5', 'the archive path is used only by Archive::load and Archive::save', floor=1)
     bs = Bisync(ctx, F, 'C08.R3')
@@ -150,6 +150,20 @@ def r3(ctx, F, bs):
         ctx.check(bool(err) and sb not in reach_err and r.guarded_by(sb, ab, 'Ok') or (bool(err) and sb not in reach_err), 'C08.R3', 'run_bisync:no-save-after-apply-error',
                   'Err edge of apply cannot reach save', 'Archive::save is reachable after apply returned an error: the record would describe data that was not delivered',
                   term_loc(R, sb))
+        # the record is the LAST effect: nothing reachable after save changes a tree (a delete or copy queued behind the
+        # save would let a kill leave the new record on disk while the data it describes is not there yet)
+        late = []
+        for bi2 in sorted(cfg.reach(sb) - {sb}):
+            t2 = R.blocks[bi2]['term']
+            if t2['k'] != 'call':
+                continue
+            c2 = callee(t2) or ''
+            mut = c2 in tables.FS_MUTATORS or (F.body(c2) is not None and any(x in tables.FS_MUTATORS for x in cg.reach([c2])))
+            if mut:
+                late.append((bi2, c2))
+        ctx.check(not late, 'C08.R3', 'run_bisync:nothing-after-save', 'no file-system mutation is reachable after Archive::save',
+                  'run_bisync changes a tree after the archive was saved (%s): a kill in between leaves a record that runs ahead of the data - '
+                  'the re-run treats the not-yet-deleted file as new and resurrects it' % sorted({c for _, c in late})[:3], term_loc(R, late[0][0]) if late else term_loc(R, sb))
         dry_false = set()
         for swb, swt in switch_blocks_on(r, lambda os_: bool(os_) and all(o.path[-1:] == ('dry_run',) for o in os_)):
             tr, fa = bool_edges(swb, swt)
